@@ -206,14 +206,25 @@ where
             Ok(v) => v.fields,
             Err(cancel_size) => {
                 // Send and await the error response
-                self.request_stream
+                if let Err(err) = self
+                    .request_stream
                     .send_response(
                         http::Response::builder()
                             .status(StatusCode::REQUEST_HEADER_FIELDS_TOO_LARGE)
                             .body(())
                             .expect("header too big response"),
                     )
-                    .await?;
+                    .await
+                {
+                    // The request can not be answered, for example because even this response
+                    // is larger than what the client accepts. Abort the stream: dropping it
+                    // would finish it cleanly without a response, which a client has to treat
+                    // as a connection error.
+                    let error_code = Code::H3_REQUEST_REJECTED;
+                    self.request_stream.stop_stream(error_code);
+                    self.request_stream.stop_sending(error_code);
+                    return Err(err);
+                }
 
                 return Err(StreamError::HeaderTooBig {
                     actual_size: cancel_size,
